@@ -1,6 +1,7 @@
 package sim
 
 import (
+	"os"
 	"encoding/json"
 	"fmt"
 	"sort"
@@ -498,6 +499,15 @@ func (r *Run) ExecBlock(bi int, b Block) {
 		r.curOp = oi
 		r.phase = "DeliverTx"
 		ctx = n.DeliverCtx(c)
+		if f, ok := directOps[op.K]; ok {
+			r.phase = "DirectCall"
+			f(r, ctx, op)
+			r.Stats.OpOutcomes[op.K+":direct"]++
+			if r.Viol != nil || r.Stats.Aborted != "" {
+				return
+			}
+			continue
+		}
 		bt, err := r.Build(ctx, op)
 		if err != nil {
 			r.Stats.OpOutcomes[op.K+":unbuildable"]++
@@ -560,6 +570,16 @@ func (r *Run) ExecBlock(bi int, b Block) {
 			}
 		}
 		r.Logf("h=%d t=%s updates=%v absent=%d evid=%d", h, hdr.Time.Format("15:04:05.000"), eb.ValidatorUpdates, len(absent), len(evs))
+		if os.Getenv("EXOSIM_NONCES") != "" {
+			dctx := n.DeliverCtx(c)
+			for _, o := range r.W.Ops {
+				if k := r.activeConsKey(dctx, o); k != nil {
+					v := sdk.ConsAddress(k.PubKey().Address()).String()
+					nn, ok := n.App.OracleKeeper.GetNonce(dctx, v)
+					r.Logf("   nonce op%d %s found=%v %v", o.Idx, v[len(v)-6:], ok, nn.NonceList)
+				}
+			}
+		}
 	}
 	rec.ConsParams = eb.ConsensusParamUpdates
 	if err := c.ApplyEndBlock(h, eb.ValidatorUpdates); err != nil {
